@@ -14,6 +14,8 @@
 (***************************************************************************)
 EXTENDS Responder, Json, IOUtils, TLC, TLCExt
 
+CONSTANT Primary    \* the property whose antecedent is counted for the evidence
+
 Log == ndJsonDeserialize(IOEnv.TRACE)
 
 VARIABLES l,        \* next event to consume
@@ -136,18 +138,17 @@ FixedOK(a, out) ==
 
 (* which events exercised the antecedent of the property being checked (for the evidence) *)
 Exercised(cfg, st, req, out) ==
-  \/ Chk("C02") /\ Frames(out) # << >>
-  \/ Chk("C03") /\ req.op = OpDiscover /\ req.tos \in {0, 1} /\ Frames(out) # << >>
-  \/ Chk("C04") /\ req.op = OpDiscover /\ req.tos \in {0, 1} /\ Frames(out) # << >>
-  \/ Chk("C05") /\ req.op = OpDiscover /\ req.tos \in {0, 1}
-  \/ Chk("C06") /\ req.op = OpEmit /\ req.tos = 0 /\ (EmitInDomain(st, req) \/ req.declared > Len(req.descs) \/ 34 + 14 * req.declared > req.len)
-  \/ Chk("C07") /\ req.op = OpQuery /\ req.tos = 0 /\ CmdInDomain(st, req)
-  \/ Chk("C08") /\ req.op = OpQueryLarge /\ req.tos \in {0, 1}
-  \/ Chk("C09") /\ IsTopoReset(req)
-  \/ Chk("C18") /\ st.havoc
-  \/ Chk("C19") /\ TRUE
-  \/ Chk("C10") /\ IsQueryResp(req, out) /\ aux[Log[l].ifc].expect # {}
-  \/ Chk("EQ") /\ FALSE
+  CASE Primary = "C02" -> Frames(out) # << >>
+    [] Primary \in {"C03", "C04"} -> req.op = OpDiscover /\ req.tos \in {0, 1} /\ Frames(out) # << >>
+    [] Primary = "C05" -> req.op = OpDiscover /\ req.tos \in {0, 1}
+    [] Primary = "C06" -> req.op = OpEmit /\ req.tos = 0 /\ (EmitInDomain(st, req) \/ 34 + 14 * req.declared > req.len)
+    [] Primary = "C07" -> req.op = OpQuery /\ req.tos = 0 /\ CmdInDomain(st, req)
+    [] Primary = "C08" -> req.op = OpQueryLarge /\ req.tos \in {0, 1}
+    [] Primary = "C09" -> Log[l].eq = 1
+    [] Primary = "C10" -> IsQueryResp(req, out) /\ aux[Log[l].ifc].expect # {}
+    [] Primary = "C18" -> FaultOf(Log[l]) # 0
+    [] Primary = "C17" -> Log[l].eq = 1
+    [] OTHER -> TRUE
 
 TReq ==
   LET ev  == Log[l]
